@@ -10,6 +10,7 @@
 One run -> one request line for the driver (`solve.<op> | ...`) + the implementation's answer
 `outcome ; final ; trace ; tape_used`.
 """
+import functools
 import inspect
 import struct
 
@@ -135,6 +136,7 @@ def wrap_evaluate(orig):
             REG.depth -= 1
         REG.E[key] = "%s:%s" % (fbits(ev.score), canon_locs(ev.locations))
         return ev
+    evaluate = functools.wraps(orig)(evaluate)
     evaluate._vp_orig = orig
     return evaluate
 
@@ -177,6 +179,7 @@ def wrap_localized(orig):
             kind = derive_kind(self, r, tok)
             REG.A[slot] = ktxt + ":%d.%s" % (REG.handle(r), kind)
         return r
+    localized = functools.wraps(orig)(localized)
     localized._vp_orig = orig
     return localized
 
@@ -204,6 +207,7 @@ def wrap_init(orig):
         kind = derive_kind(self, r, tok)
         REG.A[slot] = ktxt + ":%d.%s" % (REG.handle(r), kind)
         return r
+    initialized_on_problem = functools.wraps(orig)(initialized_on_problem)
     initialized_on_problem._vp_orig = orig
     return initialized_on_problem
 
@@ -226,6 +230,7 @@ def wrap_heuristic(orig):
             REG.suppress -= 1
             REG.H.append(((h, seq0), (problem.sequence, ok)))
             REG.trace.append(problem.sequence)   # the one assignment the model logs for a heuristic
+    resolution_heuristic = functools.wraps(orig)(resolution_heuristic)
     resolution_heuristic._vp_orig = orig
     return resolution_heuristic
 
